@@ -138,7 +138,7 @@ def _callee_key(n):
     return (n.get('cls'), n.get('callee'))
 
 
-def verify(ctx, spec, check_sites, rule, min_sites=0, extra_post=None, collect=None, extra_sites=None, entry_extra=None):
+def verify(ctx, spec, check_sites, rule, min_sites=0, extra_post=None, collect=None, extra_sites=None, entry_extra=None, dense_ptr_of=None):
     """check_sites(fn, rec, ext_of) -> (n, problems) is the site checker of C13 (shared)."""
     F = ctx.F
     fns = {}
@@ -149,8 +149,17 @@ def verify(ctx, spec, check_sites, rule, min_sites=0, extra_post=None, collect=N
         raise AnalysisBroken('%s: no contracted member is instantiated' % spec.cls)
     total_sites = 0
     seen_names = set()
+    work = []
     for fn in fns.values():
-        con = _con(spec, fn.name, len(fn.params))
+        con0 = _con(spec, fn.name, len(fn.params))
+        for var in con0.get('variants', [None]):
+            work.append((fn, var))
+    for fn, variant in work:
+        con = dict(_con(spec, fn.name, len(fn.params)))
+        assume_true = set()
+        if variant is not None:
+            con['pre'] = list(con.get('pre', [])) + list(variant.get('pre', []))
+            assume_true = set(variant.get('assume_true', []))
         seen_names.add(fn.name)
         entry = ranges.State(DBM())
         bad_spec = []
@@ -169,6 +178,26 @@ def verify(ctx, spec, check_sites, rule, min_sites=0, extra_post=None, collect=N
         def post_hook(f, st, n, spec=spec):
             if extra_post is not None:
                 extra_post(f, st, n)
+            # reading an entry of an array with a tabulated invariant:  v = A.coeff(idx) / A[idx] / A(idx)
+            ainv = getattr(spec, 'array_inv', None)
+            if ainv and n['k'] == 'DeclStmt' and len(n.get('decls', [])) == 1 and 'init' in n['decls'][0]:
+                dd = n['decls'][0]
+                t_ = sym(f, dd['init'], inline=False)
+                arr_, idx_ = None, None
+                if isinstance(t_, tuple) and t_[0] in ('coeff', '[]', '()') and len(t_) == 3 and t_[1][0] == 'F' and t_[1][1] in ainv:
+                    arr_ = t_[1][1]
+                    for y_ in f.walk(dd['init']):
+                        if y_['k'] in ('CXXMemberCallExpr', 'CXXOperatorCallExpr') and (y_.get('callee') == 'coeff' or y_.get('op') in ('[]', '()')):
+                            a_ = f.call_args(y_)
+                            idx_ = ranges.linform(f, a_[-1])
+                            break
+                if arr_ is not None and idx_ is not None and f.locals[dd['var']]['type'] in zone.INT_TYPES:
+                    v_ = ('v', dd['var'])
+                    for txt in ainv[arr_]:
+                        for L in parse_fact(txt):
+                            R = _resolve(f, L, extra={'val': {v_: 1, 1: 0}, 'idx': idx_})
+                            if R is not None:
+                                add_fact(st, R)
             # value contracts:  T v = callee(..);  /  v = callee(..);
             tgt, call = None, None
             if n['k'] == 'DeclStmt' and len(n.get('decls', [])) == 1 and 'init' in n['decls'][0]:
@@ -252,7 +281,7 @@ def verify(ctx, spec, check_sites, rule, min_sites=0, extra_post=None, collect=N
         except Exception:
             zone.EXTENT_VALUE = old_hook
             raise
-        inst = '%s::%s' % (spec.cls.replace('Spectra::', ''), fn.name)
+        inst = '%s::%s%s' % (spec.cls.replace('Spectra::', ''), fn.name, ('#' + variant['name']) if variant is not None else '')
         problems = []
         notes = []
         # ---- index obligations
@@ -342,6 +371,47 @@ def verify(ctx, spec, check_sites, rule, min_sites=0, extra_post=None, collect=N
             probs = probs + p2
         total_sites += nsite
         problems += probs + map_problems
+        # ---- array invariants: every write establishes them
+        ainv = getattr(spec, 'array_inv', None)
+        if ainv:
+            for x in fn.walk():
+                if not (x['k'] in ('BinaryOperator', 'CXXOperatorCallExpr') and x.get('op') == '='):
+                    continue
+                ops = fn.call_args(x) if x['k'] == 'CXXOperatorCallExpr' else [fn.nodes[c_] for c_ in x['c']]
+                lhs = fn.strip(ops[0])
+                arr_, idxn = None, None
+                if lhs is not None and lhs['k'] == 'CXXMemberCallExpr' and lhs.get('callee') in ('coeffRef',) and fn.field_name(fn.strip(fn.call_object(lhs))) in ainv:
+                    arr_, idxn = fn.field_name(fn.strip(fn.call_object(lhs))), fn.call_args(lhs)[-1]
+                elif lhs is not None and lhs['k'] == 'CXXOperatorCallExpr' and lhs.get('op') in ('[]', '()') and fn.field_name(fn.strip(fn.call_args(lhs)[0])) in ainv:
+                    arr_, idxn = fn.field_name(fn.strip(fn.call_args(lhs)[0])), fn.call_args(lhs)[-1]
+                elif lhs is not None and lhs['k'] == 'ArraySubscriptExpr':
+                    b_ = fn.strip(fn.nodes[lhs['c'][0]])
+                    if b_ is not None and b_['k'] == 'DeclRefExpr' and b_.get('var') in ptr_alias and ptr_alias[b_['var']] in ainv:
+                        arr_, idxn = ptr_alias[b_['var']], fn.nodes[lhs['c'][1]]
+                if arr_ is None:
+                    continue
+                z = rec.get(fn.pos_of(x))
+                if z is None:
+                    continue
+                nsite_inv = 1
+                idxf = ranges.linform(fn, idxn)
+                vals = []
+                rv = fn.strip(ops[1])
+                if rv is not None and rv['k'] == 'ConditionalOperator':
+                    ctxt = show(sym(fn, rv['c'][0], inline=False))
+                    if ctxt in assume_true:
+                        vals = [fn.nodes[rv['c'][1]]]
+                    else:
+                        vals = [fn.nodes[rv['c'][1]], fn.nodes[rv['c'][2]]]
+                else:
+                    vals = [ops[1]]
+                for vn in vals:
+                    vf = ranges.linform(fn, vn)
+                    for txt in ainv[arr_]:
+                        for L in parse_fact(txt):
+                            R = _resolve(fn, L, extra={'val': vf, 'idx': idxf})
+                            if R is None or not ranges.prove_nonpos(z, R):
+                                problems.append('`%s`: the value %s does not establish the invariant `%s` of %s' % (fn.s(x['id'])[:50], fn.s(vn['id'])[:12], txt, arr_))
         # ---- call obligations
         ncall = 0
         for c in fn.walk():
@@ -385,7 +455,22 @@ def verify(ctx, spec, check_sites, rule, min_sites=0, extra_post=None, collect=N
                             d_ = ranges.lf_sub(w, a0)
                             if (eq and d_ != {1: 0}) or (not eq and not ranges.prove_nonpos(z, d_)):
                                 problems.append('call %s: the array behind `%s` is smaller than the callee assumes (%s)' % (fn.s(c)[:50], pname, dims))
-                for txt in gcon.get('pre', []):
+                for pname, rowtxt in gcon.get('ptr_origin', {}).items():
+                    i_ = [g.locals[pid]['name'] for pid in g.params].index(pname)
+                    pp = dense_ptr_of(fn, args[i_]) if dense_ptr_of is not None else None
+                    want = _resolve(fn, _lin(rowtxt), extra=sub)
+                    if pp is None or want is None:
+                        problems.append('call %s: the pointer handed to `%s` is not modelled' % (fn.s(c)[:50], pname))
+                    else:
+                        d1 = ranges.lf_sub(pp[2], want)
+                        if not (ranges.prove_nonpos(z, d1) and ranges.prove_nonpos(z, {k: -v for k, v in d1.items()})):
+                            problems.append('call %s: `%s` does not point at entry %s of the vector' % (fn.s(c)[:50], pname, rowtxt))
+                vpre = []
+                for var_ in gcon.get('variants', []):
+                    if var_['when'](fn, args):
+                        vpre = list(var_.get('pre', []))
+                        break
+                for txt in list(gcon.get('pre', [])) + vpre:
                     for L in parse_fact(txt):
                         R = _resolve(fn, L, extra=sub)
                         if R is None or not ranges.prove_nonpos(z, R):
@@ -835,12 +920,23 @@ def verify_dense(ctx, spec, dense, check_sites, rule, min_sites=0):
 
     def entry_extra(fn, st):
         # pointer PARAMETERS of the table start at the origin of their window
+        po = getattr(dense, 'param_origin', {}).get(fn.name, {})
         for vid, arr in dense.table(fn, resolve).items():
             if vid in fn.params:
+                nm = fn.locals[vid]['name']
                 st.d.assign_var_plus(('v', vid), 'Z', 0)
                 st.d.assign_var_plus(('pc', vid), 'Z', 0)
+                if nm in po:
+                    for var_, txt in ((('pc', vid), po[nm][0]), (('v', vid), po[nm][1])):
+                        f_ = resolve(fn, txt if not txt.isdigit() else int(txt))
+                        vs = [(k, c) for k, c in (f_ or {}).items() if k != 1 and c != 0]
+                        if f_ is not None and not vs:
+                            st.d.assign_var_plus(var_, 'Z', f_.get(1, 0))
+                        elif f_ is not None and len(vs) == 1 and vs[0][1] == 1:
+                            st.d.assign_var_plus(var_, vs[0][0], f_.get(1, 0))
     _table_not_stale(ctx, spec, dense.ptrs, getattr(dense, 'unmodelled', None))
     try:
-        return verify(ctx, spec, check_sites, rule, min_sites=min_sites, extra_sites=dense.sites(resolve), entry_extra=entry_extra)
+        return verify(ctx, spec, check_sites, rule, min_sites=min_sites, extra_sites=dense.sites(resolve), entry_extra=entry_extra,
+                      dense_ptr_of=lambda f, node: dense.ptr_of(f, node, resolve))
     finally:
         zone.PTR_VARS, zone.PTR_STEP, zone.PTR_ASSUME = old_pv, old_ps, old_pa
